@@ -103,7 +103,9 @@ func writeRowsOneByOne(w *parquet.GenericWriter[JRow], rows []JRow) {
 	}
 }
 
-var c17Containers = []string{"GenericWriter", "GenericBuffer->WriteRowGroup", "SortingWriter", "Writer(any)"}
+var c17Containers = []string{"GenericWriter", "GenericBuffer->WriteRowGroup", "SortingWriter", "Writer(any)",
+	// one writer copying the row groups of ONE open source file again and again
+	"GenericWriter.WriteRowGroup(shared file)"}
 
 func c17Run(x *engine.X) {
 	root := x.Choose(len(c17Jobs)*len(c17Containers), "job*container")
@@ -242,6 +244,74 @@ func c17Run(x *engine.X) {
 			}
 			got = sink.Bytes()
 		}
+	case "GenericWriter.WriteRowGroup(shared file)":
+		var src bytes.Buffer
+		sw := parquet.NewGenericWriter[JRow](&src, job.opts()...)
+		writeRowsOneByOne(sw, J)
+		if err := sw.Close(); err != nil {
+			x.Failf("harness", "source", "%v", err)
+			return
+		}
+		open := func() *parquet.File {
+			f, err := parquet.OpenFile(bytes.NewReader(src.Bytes()), int64(src.Len()))
+			if err != nil {
+				panic(err)
+			}
+			return f
+		}
+		copyAll := func(w *parquet.GenericWriter[JRow], f *parquet.File) error {
+			for _, rg := range f.RowGroups() {
+				if _, err := w.WriteRowGroup(rg); err != nil {
+					return err
+				}
+			}
+			return nil
+		}
+		var ref bytes.Buffer
+		fw := parquet.NewGenericWriter[JRow](&ref, job.opts()...)
+		if err := copyAll(fw, open()); err != nil {
+			x.Failf("harness", "reference", "%v", err)
+			return
+		}
+		if err := fw.Close(); err != nil {
+			x.Failf("harness", "reference", "%v", err)
+			return
+		}
+		reference = ref.Bytes()
+		shared := open()
+		var sink bytes.Buffer
+		w := parquet.NewGenericWriter[JRow](&sink, job.opts()...)
+		for _, h := range hist {
+			switch h {
+			case "complete(small)", "complete(large)", "complete(empty)":
+				copyAll(w, shared)
+				w.Close()
+			case "aborted-after-write":
+				copyAll(w, shared)
+			case "sink-fails":
+				w.Reset(&failAfter{n: 200})
+				copyAll(w, shared)
+				w.Close()
+			case "flush-only":
+				copyAll(w, shared)
+				w.Flush()
+			case "close-twice":
+				copyAll(w, shared)
+				w.Close()
+				w.Close()
+			}
+			sink.Reset()
+			w.Reset(&sink)
+		}
+		if err := copyAll(w, shared); err != nil {
+			x.Failf("close-error", shape, "after %v: WriteRowGroup of the final job failed: %v", hist, err)
+			return
+		}
+		if err := w.Close(); err != nil {
+			x.Failf("close-error", shape, "after %v: Close of the final job failed: %v", hist, err)
+			return
+		}
+		got = sink.Bytes()
 	case "GenericBuffer->WriteRowGroup":
 		emit := func(b *parquet.GenericBuffer[JRow]) ([]byte, error) {
 			var out bytes.Buffer
@@ -377,7 +447,7 @@ func init() {
 	Register(&engine.Prop{
 		ID:    "C17",
 		Level: "exploration",
-		Rule: "8 jobs (default, small pages, dictionary fallback, bloom filters, 2 row groups, key/value + sorting metadata, v1+snappy+statistics, combined) x 4 containers (GenericWriter, Writer(any), GenericBuffer->WriteRowGroup, SortingWriter) x {real, always-reuse} pools x ALL histories of <=2 (3 thorough) prior uses of the SAME instance from {complete small/large/empty job, job aborted after Write, job whose sink fails, Flush only, Close twice}, each followed by Reset; the final job's bytes must equal a fresh instance's, also from another goroutine; the fresh digest is compared across build variants asm / no-AVX2 / purego; " +
+		Rule: "8 jobs (default, small pages, dictionary fallback, bloom filters, 2 row groups, key/value + sorting metadata, v1+snappy+statistics, combined) x 5 containers (incl. one writer copying the row groups of one open source file repeatedly) (GenericWriter, Writer(any), GenericBuffer->WriteRowGroup, SortingWriter) x {real, always-reuse} pools x ALL histories of <=2 (3 thorough) prior uses of the SAME instance from {complete small/large/empty job, job aborted after Write, job whose sink fails, Flush only, Close twice}, each followed by Reset; the final job's bytes must equal a fresh instance's, also from another goroutine; the fresh digest is compared across build variants asm / no-AVX2 / purego; " +
 			"non-trivial = non-empty history",
 		Assumptions: []string{"Go map-typed values and encryption are excluded by the statement; GOEXPERIMENT=simd build not compared"},
 		Bound:       func(string) int { return 0 },
